@@ -40,6 +40,24 @@ std::mutex& TimeZoneMutex() {
   return *time_zone_mutex;
 }
 
+// Serializes the loading of not-yet-cached zones, so that a (possibly
+// non-thread-safe) cctz_extension::zone_info_source_factory is invoked
+// only once for any zone name, and never concurrently. It is distinct from
+// TimeZoneMutex() so that cache hits never wait for another zone's I/O.
+std::mutex& LoadMutex() {
+  static std::mutex* load_mutex = new std::mutex;
+  return *load_mutex;
+}
+
+// Looks up an already-loaded zone. Requires that TimeZoneMutex() is held.
+const time_zone::Impl* FindLoaded(const std::string& name) {
+  if (time_zone_map != nullptr) {
+    TimeZoneImplByName::const_iterator itr = time_zone_map->find(name);
+    if (itr != time_zone_map->end()) return itr->second;
+  }
+  return nullptr;
+}
+
 }  // namespace
 
 time_zone time_zone::Impl::UTC() {
@@ -59,16 +77,24 @@ bool time_zone::Impl::LoadTimeZone(const std::string& name, time_zone* tz) {
   // Check whether the time zone has already been loaded.
   {
     std::lock_guard<std::mutex> lock(TimeZoneMutex());
-    if (time_zone_map != nullptr) {
-      TimeZoneImplByName::const_iterator itr = time_zone_map->find(name);
-      if (itr != time_zone_map->end()) {
-        *tz = time_zone(itr->second);
-        return itr->second != utc_impl;
-      }
+    if (const Impl* impl = FindLoaded(name)) {
+      *tz = time_zone(impl);
+      return impl != utc_impl;
     }
   }
 
-  // Load the new time zone (outside the lock).
+  // Only one thread at a time loads a new time zone. Check again in case
+  // another thread loaded this one while we were waiting for our turn.
+  std::lock_guard<std::mutex> load_lock(LoadMutex());
+  {
+    std::lock_guard<std::mutex> lock(TimeZoneMutex());
+    if (const Impl* impl = FindLoaded(name)) {
+      *tz = time_zone(impl);
+      return impl != utc_impl;
+    }
+  }
+
+  // Load the new time zone (outside the TimeZoneMutex() lock).
   std::unique_ptr<const Impl> new_impl(new Impl(name));
 
   // Add the new time zone to the map.
